@@ -89,7 +89,9 @@ class Canonicalizer:
         elif isinstance(expression, Product):
             # note: safe already sorts
             return Product.safe(
-                self.canonicalize(subexpr) for subexpr in _flatten_product(expression)
+                _flatten_expressions(
+                    self.canonicalize(subexpr) for subexpr in _flatten_product(expression)
+                )
             )
         elif isinstance(expression, Fraction):
             numerator = self.canonicalize(expression.numerator)
@@ -99,11 +101,26 @@ class Canonicalizer:
                 return numerator
             if numerator == denominator:
                 return One()
-            return numerator / denominator  # TODO
+            rv = numerator / denominator
+            if isinstance(rv, Fraction):
+                # dividing by a fraction re-arranges the parts, so check the trivial cases again
+                if isinstance(rv.denominator, One):
+                    return rv.numerator
+                if rv.numerator == rv.denominator:
+                    return One()
+            return rv
         elif isinstance(expression, One | Zero):
             return expression
         else:
             raise TypeError
+
+
+def _flatten_expressions(expressions: Iterable[Expression]) -> Iterable[Expression]:
+    for expression in expressions:
+        if isinstance(expression, Product):
+            yield from _flatten_product(expression)
+        else:
+            yield expression
 
 
 def _flatten_product(product: Product) -> Iterable[Expression]:
